@@ -46,6 +46,8 @@ fn encode<'a>(root: RefNode<'a>, kinds: &Kinds) -> String {
     s.trim_end().to_string()
 }
 
+fn o2_fail(o: &mut TreeObs, m: String) { o.failures.push(m); }
+
 pub struct TreeObs { pub lines: Vec<(String, String)>, pub failures: Vec<String>, pub known: Vec<String>, pub nodes: usize }
 
 pub fn observe(tree: &SyntaxTree, kinds: &Kinds, rng: &mut Rng, nquery: usize) -> TreeObs {
@@ -68,6 +70,11 @@ pub fn observe(tree: &SyntaxTree, kinds: &Kinds, rng: &mut Rng, nquery: usize) -
     if !stack.is_empty() { o.failures.push(format!("{} Enter events never left", stack.len())); }
     if enters.len() != all.len() || enters.iter().zip(all.iter()).any(|(a, b)| a != b) { o.failures.push("Enter sequence differs from plain iteration".into()); }
     if nleave != enters.len() { o.failures.push(format!("{} Enter vs {} Leave", enters.len(), nleave)); }
+    // (1b) source order: the tokens met by the iteration stand at strictly increasing offsets
+    { let mut last: Option<(usize, usize)> = None;
+      for x in all.iter() { if let RefNode::Locate(l) = x {
+          if let Some((po, pn)) = last { if l.offset < po + pn { o2_fail(&mut o, format!("iteration is not in source order: token at offset {} (len {}) is followed by the token at offset {}", po, pn, l.offset)); break; } }
+          last = Some((l.offset, l.len)); } } }
     // (2) subtree sizes from events; iteration of node k == contiguous segment of the root's pre-order
     let mut size = vec![0usize; all.len()];
     { let mut st: Vec<usize> = vec![]; let mut idx = 0usize;
@@ -133,7 +140,7 @@ pub fn main(args: &[String]) {
         }));
         (text, r.map_err(util::panic_msg))
     });
-    let mut rep = Report::new("trees of accepted corpus programs (some with an inserted kept directive and comment); per tree the root and random nodes are queried; non-trivial = tree with >= 10 nodes; distinct by text hash");
+    let mut rep = Report::new("trees of accepted corpus programs (some with an inserted kept directive and comment); per tree the root and random nodes are queried (pre-order segment, source order of the tokens, balanced events, unwrap macros, get_str_trim); non-trivial = tree with >= 10 nodes; distinct by text hash");
     let mut fc = std::fs::File::create(format!("{}.cases", out)).unwrap();
     let mut fi = std::fs::File::create(format!("{}.impl", out)).unwrap();
     for (text, r) in results {
